@@ -1,14 +1,30 @@
 import SigmaVerif.Gen.Cond
 import SigmaVerif.Model.Cond
+import SigmaVerif.Props.C02
 /-! Obligations tying what `sigma/conditions.py` says *now* (regenerated `Gen.Cond`) to the
 hypotheses of the C02 theorems. -/
 namespace SigmaVerif.Oblig.C02
-open SigmaVerif.Cond
+open SigmaVerif.Cond SigmaVerif.CondSpec
 
-/-- the grammar read from the live source is the one the theorems are proved for -/
-theorem gen_grammar_equiv_std : SigmaVerif.Gen.Cond.grammar.equiv stdGrammar = true := by decide
+/-- the grammar read from the live source satisfies the decidable well-formedness predicate the
+theorems assume: operators are keywords whose identifier characters cover those of names, … -/
+theorem gen_grammar_wf : SigmaVerif.Gen.Cond.grammar.wf = true := by decide
 
 /-- pyparsing skips exactly the whitespace characters the model skips -/
 theorem gen_white_chars : sameChars SigmaVerif.Gen.Cond.whiteChars wsChars = true := by decide
+
+/-- the character sets are the ones the specification reader (`CondSpec.read`) uses -/
+theorem gen_grammar_equiv_std : SigmaVerif.Gen.Cond.grammar.equiv stdGrammar = true := by decide
+
+/-- C02 instantiated at the grammar the code has *now*: every canonical spelling is parsed to
+the meaning it spells -/
+theorem gen_parse_pp (e : E) (he : e.wf SigmaVerif.Gen.Cond.grammar = true) :
+    ∃ t, parse SigmaVerif.Gen.Cond.grammar (pp 2 e) = some t ∧ ∀ dets ρ, semPT dets ρ t = e.sem dets ρ :=
+  SigmaVerif.Props.C02.parse_pp _ gen_grammar_wf e he
+
+/-- … and every detection name is read as a whole word -/
+theorem gen_name_whole_word (n : Str) (hn : wfName SigmaVerif.Gen.Cond.grammar n = true) :
+    parse SigmaVerif.Gen.Cond.grammar n = some (.id n) :=
+  SigmaVerif.Props.C02.name_whole_word _ gen_grammar_wf n hn
 
 end SigmaVerif.Oblig.C02
